@@ -34,7 +34,8 @@ JOIN_ALPHA = ["", "a", ".", "..", "a/b", "/", "/a", "b/", "..a", "a:b", "a//b", 
 class C07(Prop):
     id = "C07"
     props = "C07_Props"
-    coq_files = ("Base", "C07_Consts", "C07_Model", "C07_Spec", "C07_Proofs", "C07_Names", "C07_Props")
+    coq_files = ("Base", "C07_Consts", "C07_Model", "C07_Spec", "C07_Proofs", "C07_Names", "C07_Join", "C07_Unique",
+                 "C07_Order", "C07_Props")
     models = ("C07_Model",)
     consts = ("cc",)
     packages = {"cc": "internal/app/connectconformance"}
